@@ -3,6 +3,6 @@
 set -e
 p="$1"; b=$(basename "$p" .values.json); name="${b/__/::}"
 cd "$(dirname "$0")"
-export CARGO_NET_OFFLINE=true RUSTUP_TOOLCHAIN=$(sed -n 's/^channel *= *"\(.*\)"/\1/p' /repo/rust-toolchain.toml) RUSTFLAGS="--cfg clvmr_verif"
+export CARGO_NET_OFFLINE=true RUSTUP_TOOLCHAIN=$(sed -n 's/^channel *= *"\(.*\)"/\1/p' /repo/rust-toolchain.toml)
 cargo build --offline --features replay --bin replay --target-dir ../.work/native >/dev/null 2>&1
 exec ../.work/native/debug/replay "$name" "$p"
